@@ -220,6 +220,43 @@ pub fn seq_core(tier: Tier, base: &[&'static str]) -> Vec<Scenario> {
     v
 }
 
+// ---------------------------------------------------------------- reachability (unbounded depth)
+
+/// Histories explored to closure: a history is cut as soon as it reaches an
+/// abstract state (see `seq::canon`) that was already reached at the same or a
+/// smaller depth, so the exploration ends when no new state can be reached;
+/// `horizon` is only a safety net and is reported as a cap if it is ever hit.
+pub fn reach_scenarios(tier: Tier, base: &[&'static str], resize: bool, close: bool) -> Vec<Scenario> {
+    let b = bounds(tier);
+    let mut v = Vec::new();
+    let shapes: Vec<(usize, usize, usize)> = if b.thorough { vec![(1, 2, 0), (1, 3, 1), (2, 2, 1), (2, 3, 2)] } else { vec![(1, 2, 0), (2, 2, 1)] };
+    for (ms, tasks, prefill) in shapes {
+        let mut c = PoolCfg::simple(ms);
+        c.create_menu = vec![Out::Ok, Out::Err, Out::PendOk];
+        c.recycle_menu = vec![Out::Ok, Out::Err, Out::PendOk];
+        let mut sc = SeqScenario::new(c, 0, base);
+        sc.max_tasks = tasks;
+        sc.prefill = prefill;
+        sc.take = true;
+        sc.retain = !resize && !close;
+        sc.gets_nonblocking = true;
+        sc.cancel = true;
+        if resize {
+            sc.resize_targets = if b.thorough { vec![0, 1, 2, 3] } else { vec![0, 1, 2] };
+        }
+        if close {
+            sc.close = true;
+            if !resize {
+                sc.resize_targets = vec![0, 2];
+            }
+        }
+        let sc = sc.reachability(if b.thorough { 60 } else { 40 });
+        let tag = format!("{}{}", if resize { "+resize" } else { "" }, if close { "+close" } else { "" });
+        v.push(seq(&format!("reach{}/ms{}/tasks{}/prefill{}", tag, ms, tasks, prefill), "all reachable abstract states (unbounded history depth): every operation, environment answer and abandonment from every state until no new state appears; each new state also gets the stop-and-probe branch", 0, sc));
+    }
+    v
+}
+
 // ---------------------------------------------------------------- C03
 
 pub fn c03_scenarios(tier: Tier) -> Vec<Scenario> {
@@ -621,16 +658,35 @@ pub fn spec_for(prop: &str, tier: Tier) -> Option<CheckSpec> {
         "C02" => {
             let mut v = conc_core(tier, &["C02"]);
             v.extend(seq_core(tier, &["C02"]));
+            v.extend(reach_scenarios(tier, &["C02"], false, false));
             v
         }
         "C03" => c03_scenarios(tier),
         "C04" => c04_scenarios(tier, &["C04"]),
         "C13" => c04_scenarios(tier, &["C13"]),
-        "C06" => c06_scenarios(tier),
-        "C07" => c07_scenarios(tier),
+        "C06" => {
+            let mut v = c06_scenarios(tier);
+            v.extend(reach_scenarios(tier, &["C06"], false, true));
+            v
+        }
+        "C07" => {
+            let mut v = c07_scenarios(tier);
+            v.extend(reach_scenarios(tier, &["C07"], true, false));
+            v
+        }
         "C08" => c08_scenarios(tier),
-        "C09" => c09_scenarios(tier),
-        "C11" => c11_scenarios(tier),
+        "C09" => {
+            let mut v = c09_scenarios(tier);
+            v.extend(reach_scenarios(tier, &["C09"], false, false));
+            v.extend(reach_scenarios(tier, &["C09"], true, true));
+            v
+        }
+        "C11" => {
+            let mut v = c11_scenarios(tier);
+            v.extend(reach_scenarios(tier, &["C11"], false, false));
+            v.extend(reach_scenarios(tier, &["C11"], true, true));
+            v
+        }
         "C10" => c10_scenarios(tier),
         "C05" => unmanaged_scenarios(tier, false),
         "C12" => unmanaged_scenarios(tier, true),
